@@ -101,6 +101,7 @@ class Sim:
         self.frames_seen = {}       # endpoint index -> number of frames already accounted for
         self.last_burst = None
         self.bursts = []
+        self.pins = []
         self.stop_info = None
         self.started = False
 
@@ -188,9 +189,12 @@ class Sim:
         elif kind == 'logincut':
             self._login('ok', step[1])
         elif kind == 'dist':
-            from aioslsk.protocol.messages import ParentMinSpeed
-            w.server_send(ParentMinSpeed.Response(5))
-            w.settle(30)
+            # a distributed parameter, a privileged-users list and a joined room: server-derived state of every kind
+            from aioslsk.protocol.messages import ParentMinSpeed, PrivilegedUsers, JoinRoom
+            from aioslsk.protocol.primitives import UserStats
+            w.server_send(ParentMinSpeed.Response(5), PrivilegedUsers.Response(['pinned']),
+                          JoinRoom.Response('roomX', ['pinned'], [2], [UserStats(1, 1, 1, 1)], [1], ['NL']))
+            w.settle(40)
         elif kind == 'parents':
             from aioslsk.protocol.messages import PotentialParents
             from aioslsk.protocol.primitives import PotentialParent
@@ -225,6 +229,9 @@ class Sim:
                 extra.append('OStopRaised')
         else:
             raise AssertionError(step)
+        if c.session is not None and kind in ('login', 'dist'):
+            # users are held weakly by the UserManager: keep one alive from outside, so that "users cleared" is observable
+            self.pins.append(c.users.get_user_object('pinned'))
         after = self.stop_counters if kind == 'stop' else self.counters()
         outs = []
         if kind in ('start', 'tick'):
@@ -857,7 +864,24 @@ def run(run: Run):
             st['ports'] = list(ports)
             st['auto_join'] = aj
             explore(run, {'settings': st, 'steps': [['start', True], ['login', 'ok'], ['command'], ['stop']]}, cases, 'burst')
-    n = 110 if run.tier == 'quick' else 1500
+    # systematic part of the quantifier: every close reason at every point, followed by reconnect period or by stop()
+    base = {'ports': [60000, 60001], 'friends': ['f1'], 'liked': ['jazz'], 'hated': [], 'favorites': [], 'auto_join': True,
+            'invites': True, 'reconnect': True, 'dirs': 0}
+    points = {'idle': [['login', 'ok']], 'prelogin': [], 'pending': [['login', 'ok'], ['parents']], 'derived': [['login', 'ok'], ['dist']]}
+    for rec in (True, False):
+        for pname, pre in points.items():
+            if run.tier == 'quick' and pname in ('pending', 'derived') and not rec:
+                continue
+            for reason in REASONS:
+                st = dict(base, reconnect=rec)
+                explore(run, {'settings': st, 'steps': [['start', True]] + pre + [['lost', reason], ['command'], ['tick', True], ['login', 'ok'], ['stop']]},
+                        cases, 'loss:' + pname)
+                explore(run, {'settings': st, 'steps': [['start', True]] + pre + [['lost', reason], ['stop']]}, cases, 'loss+stop:' + pname)
+    # the connection breaks at every frame of the burst
+    st = dict(base, reconnect=False, favorites=['roomA'], auto_join=False)
+    for k in sorted(cut_sites_for(st)):
+        explore(run, {'settings': st, 'steps': [['start', True], ['logincut', k], ['command'], ['stop']]}, cases, 'burst-cut')
+    n = 60 if run.tier == 'quick' else 1500
     for i in range(n):
         st = gen_settings(rng)
         sites = cut_sites_for(st) if rng.random() < 0.3 else {}
